@@ -23,6 +23,7 @@ package proxy
 import (
 	"bufio"
 	"context"
+	"crypto/sha256"
 	"crypto/tls"
 	"crypto/x509"
 	"errors"
@@ -76,7 +77,9 @@ type c15Case struct {
 	Query   string      `json:"query"` // after the first '?', as sent
 	Host    string      `json:"host"`
 	Headers [][2]string `json:"headers"` // as sent, in order (without Host and the body framing header)
-	Body    string      `json:"body"`
+	Body    string      `json:"-"`
+	BodyRep string      `json:"body"` // the body itself, or "sha256:<hex>:<length>" for a large one
+	BareQ   bool        `json:"bare_q,omitempty"` // the target ends in a '?' without a query
 	Chunked bool        `json:"chunked"`
 	Setting string      `json:"setting"` // off | on | no_decode
 	Up      int         `json:"up"`      // 0 plain upstream, 1 TLS upstream
@@ -107,6 +110,18 @@ type c15Out struct {
 	Body    string   `json:"body"`
 	Hits    int      `json:"hits,omitempty"`
 	Err     string   `json:"err,omitempty"`
+}
+
+// c15BodyRep is the projection of a body that is compared: short bodies byte for
+// byte, long ones by digest and length.
+func c15BodyRep(b string) string {
+	if len(b) <= 512 {
+		return b
+	}
+
+	sum := sha256.Sum256([]byte(b))
+
+	return fmt.Sprintf("sha256:%x:%d", sum, len(b))
 }
 
 // ---- stub mechanisms -----------------------------------------------------------
@@ -197,6 +212,8 @@ type c15Sys struct {
 	upHosts [2]string
 	factory rule.Factory
 	close   []func()
+
+	localhostOK bool // "localhost" resolves to 127.0.0.1
 }
 
 // c15ServeRaw is the upstream test server: it reads what heimdall's transport
@@ -280,7 +297,7 @@ func c15HandleConn(conn net.Conn, which int) {
 			}
 		}
 
-		out := c15Out{Kind: "forwarded", Up: which, Method: method, URI: target, Body: string(body)}
+		out := c15Out{Kind: "forwarded", Up: which, Method: method, URI: target, Body: c15BodyRep(string(body))}
 
 		names := make([]string, 0, len(hdr))
 		for k := range hdr {
@@ -386,6 +403,14 @@ func c15Start(t *testing.T) *c15Sys {
 
 	s.factory = factory
 
+	if addrs, err := net.LookupHost("localhost"); err == nil {
+		for _, a := range addrs {
+			if a == "127.0.0.1" {
+				s.localhostOK = true
+			}
+		}
+	}
+
 	return s
 }
 
@@ -418,7 +443,11 @@ func c15CanonKey(s string) string { return http.CanonicalHeaderKey(s) }
 // c15Oracles fills in the fields of the case that are answers of libraries the
 // model does not contain (trust decision on the peer address, url.Parse of X-Forwarded-Uri).
 func (s *c15Sys) oracles(c *c15Case) {
-	c.UpHost = s.upHosts[c.Up]
+	if c.UpHost == "" {
+		c.UpHost = s.upHosts[c.Up]
+	}
+
+	c.BodyRep = c15BodyRep(c.Body)
 	c.Trusted = c15Trusted(c.Srv, c.Peer)
 	c.Xfu = nil
 
@@ -492,6 +521,8 @@ func (s *c15Sys) run(c *c15Case) c15Out {
 	target := c.Raw
 	if c.Query != "" {
 		target += "?" + c.Query
+	} else if c.BareQ {
+		target += "?"
 	}
 
 	fmt.Fprintf(&sb, "%s %s HTTP/1.1\r\nHost: %s\r\n", c.Method, target, c.Host)
@@ -505,7 +536,7 @@ func (s *c15Sys) run(c *c15Case) c15Out {
 		sb.WriteString("Transfer-Encoding: chunked\r\n\r\n")
 
 		for rest := c.Body; len(rest) > 0; {
-			n := min(len(rest), 7)
+			n := min(len(rest), 7+len(c.Body)/16)
 			fmt.Fprintf(&sb, "%x\r\n%s\r\n", n, rest[:n])
 			rest = rest[n:]
 		}
@@ -537,12 +568,13 @@ func (s *c15Sys) run(c *c15Case) c15Out {
 		return c15Out{Kind: "notforwarded", Status: resp.StatusCode}
 	}
 
+	if len(hits) > 1 {
+		// the request reached the upstream more than once
+		return c15Out{Kind: "duplicated", Status: resp.StatusCode, Hits: len(hits)}
+	}
+
 	out := hits[0]
 	out.Status = resp.StatusCode
-
-	if len(hits) > 1 {
-		out.Hits = len(hits)
-	}
 
 	c15Project(c, &out)
 
@@ -605,7 +637,9 @@ var (
 	c15PFwdNames = []string{"X-Forwarded-For", "Forwarded", "X-Forwarded-Proto", "x-forwarded-host"}
 	c15CNames    = []string{"X-User", "x-user", "X-USER", "Authorization", "AUTHORIZATION", "X-Id", "X-ID", "x-custom-1", "X-Custom-1", "Accept", "Accept-Encoding", "Range", "User-Agent",
 		"X-Real-Ip", "Cookie", "cookie", "X-Other", "X-Drop"}
-	c15Vals = []string{"alice", "bob", "Bearer abc.def", "1", "a, b", "x;y=z", "\"q\"", "v1", "gzip", "bytes=0-1", "curl/8", "a  b", "\xc3\xa9"}
+	c15Vals = []string{"alice", "bob", "Bearer abc.def", "1", "a, b", "x;y=z", "\"q\"", "v1", "gzip", "bytes=0-1", "curl/8", "a  b", "\xc3\xa9", "", "admin"}
+	// names outside the fixed pools: any field a client or a finalizer may come up with
+	c15FreshNames = []string{"Content-Type", "content-type", "Traceparent", "traceparent", "Baggage", "Via", "X-Request-Id", "Accept-Language", "If-None-Match", "Origin", "Referer", "X-Api-Key", "Content-Language", "Pragma"}
 
 	c15XFMethods = []string{"GET", "POST", "PATCH", "DELETE", "get", "HEAD"}
 	c15XFUris    = []string{"/other/path?x=1&a=2", "/o%2Fp", "/o%2fp/%41", "?q=1", "/p?b=2&a=1&a=0", "http://h.example/abs?z=1", "/%zz", "/sp ace", "/x?a=%zz&b=1", "/api/v1/users", "/a;b?a=1;b=2", "*", "//x/y"}
@@ -630,6 +664,24 @@ func c15RandCase(r *vf.Rand, name string) string {
 				b[i] += 32
 			}
 		}
+	}
+
+	return string(b)
+}
+
+const c15Tchars = "abcdefghijklmnopqrstuvwxyzABCDEFGHIJKLMNOPQRSTUVWXYZ0123456789-_.!#$%&'*+^`|~"
+
+// c15FreshName is a field name outside the fixed pools (never a framing or hop-by-hop name).
+func c15FreshName(r *vf.Rand) string {
+	if r.Chance(60) {
+		return vf.Pick(r, c15FreshNames)
+	}
+
+	n := r.Range(1, 8)
+	b := []byte("X-")
+
+	for i := 0; i < n; i++ {
+		b = append(b, c15Tchars[r.Intn(len(c15Tchars))])
 	}
 
 	return string(b)
@@ -803,6 +855,10 @@ func (s *c15Sys) gen(r *vf.Rand) c15Case {
 	nh := r.Range(0, 4)
 	for i := 0; i < nh; i++ {
 		name := vf.Pick(r, c15CNames)
+		if r.Chance(20) {
+			name = c15FreshName(r)
+		}
+
 		if r.Chance(30) {
 			name = c15RandCase(r, name)
 		}
@@ -834,6 +890,19 @@ func (s *c15Sys) gen(r *vf.Rand) c15Case {
 		}
 	}
 
+	if c.Method == "OPTIONS" && r.Chance(40) {
+		// a CORS preflight request: forwarded like any other request unless CORS is configured
+		c.Headers = append(c.Headers, [2]string{"Origin", "https://app.example.com"},
+			[2]string{"Access-Control-Request-Method", vf.Pick(r, []string{"POST", "DELETE"})})
+		if r.Bool() {
+			c.Headers = append(c.Headers, [2]string{"Access-Control-Request-Headers", "authorization, x-user"})
+		}
+	}
+
+	if c.Query == "" && r.Chance(15) {
+		c.BareQ = true
+	}
+
 	if r.Chance(12) {
 		toks := []string{"close"}
 		if r.Chance(60) {
@@ -858,6 +927,11 @@ func (s *c15Sys) gen(r *vf.Rand) c15Case {
 	default:
 		if r.Chance(80) {
 			c.Body = vf.Pick(r, []string{"{\"a\":1}", "a=1&b=2", "plain text body", strings.Repeat("0123456789", 30), "\x00\x01\xff binary"})
+			if r.Chance(6) {
+				// 70 KiB .. 1.5 MiB, compared by digest
+				c.Body = strings.Repeat(fmt.Sprintf("%08x-heimdall-verif-body\n", r.Intn(1<<30)), vf.Pick(r, []int{2400, 10000, 50000}))
+			}
+
 			c.Chunked = r.Chance(30)
 
 			if r.Chance(50) {
@@ -876,6 +950,17 @@ func (s *c15Sys) gen(r *vf.Rand) c15Case {
 		name, val := vf.Pick(r, c15PNames), vf.Pick(r, c15Vals)
 		if r.Chance(6) {
 			name = vf.Pick(r, c15PFwdNames)
+		}
+
+		switch {
+		case r.Chance(20):
+			name = c15FreshName(r)
+		case r.Chance(15) && len(c.Headers) > 0:
+			// the name of a field the client sent, in another casing
+			name = c15RandCase(r, vf.Pick(r, c.Headers)[0])
+			if k := c15CanonKey(name); k == "Connection" || k == "Content-Type" && c.Body != "" {
+				name = "X-User"
+			}
 		}
 
 		if strings.EqualFold(name, "host") {
@@ -926,6 +1011,12 @@ func (s *c15Sys) gen(r *vf.Rand) c15Case {
 		c.Up = r.Intn(2)
 	}
 
+	if s.localhostOK && r.Chance(12) {
+		// forward_to.host by name
+		_, port, _ := net.SplitHostPort(s.upHosts[c.Up])
+		c.UpHost = "localhost:" + port
+	}
+
 	return c
 }
 
@@ -942,7 +1033,7 @@ func c15Coq(c *c15Case, o c15Out) string {
 	}
 
 	req := vf.CoqApp("rq", vf.CoqStr(c.Method), vf.CoqStr(c.Raw), vf.CoqStr(c.Query), vf.CoqStr(c.Host),
-		c15CoqPairs(c.Headers), vf.CoqStr(c.Body), vf.CoqStr(c.Peer), vf.CoqBool(c.Trusted), xfu)
+		c15CoqPairs(c.Headers), vf.CoqStr(c.BodyRep), vf.CoqStr(c.Peer), vf.CoqBool(c.Trusted), xfu)
 	pl := vf.CoqApp("pln", c15CoqPairs(c.PHdrs), c15CoqPairs(c.PCooks))
 
 	rw := "None"
@@ -961,6 +1052,8 @@ func c15Coq(c *c15Case, o c15Out) string {
 		obs = vf.CoqApp("Forwarded", vf.CoqBool(o.Up == 1), vf.CoqStr(o.Method), vf.CoqStr(o.URI), vf.CoqStr(o.Host), hdrs, vf.CoqStr(o.Body))
 	case "notforwarded":
 		obs = vf.CoqApp("NotForwarded", vf.CoqZ(int64(o.Status)))
+	case "duplicated":
+		obs = "(NotForwarded (-2)%Z)"
 	default:
 		obs = "(NotForwarded (-1)%Z)"
 	}
@@ -1221,9 +1314,18 @@ func TestVerifC15(t *testing.T) {
 	emit := func(stream string, c c15Case) {
 		if vf.Want(idx) {
 			o := s.run(&c)
+			for try := 0; o.Kind == "error" && try < 3; try++ {
+				time.Sleep(200 * time.Millisecond)
+				o = s.run(&c)
+			}
+
+			if o.Kind == "error" {
+				t.Fatalf("infrastructure failure on case %d (not a verdict about heimdall): %s", idx, o.Err)
+			}
+
 			tags, nontrivial := c15Tags(&c, o)
 			key := c
-			key.UpHost = "" // the port of the upstream differs from run to run
+			key.UpHost = strings.Split(c.UpHost, ":")[0] // the port of the upstream differs from run to run
 			w.Put(vf.Obs{I: idx, Stream: stream, In: c, Out: o, Coq: c15Coq(&c, o), Nontrivial: nontrivial,
 				Key: vf.KeyOf(key), Tags: tags})
 		}
